@@ -1,5 +1,6 @@
 import LitexProofs.Packet.Header
 import LitexProofs.Packet.Fifo
+import LitexProofs.Packet.FifoBuffered
 import LitexProofs.Packet.Arbiter
 import LitexProofs.Packet.Fair
 import LitexProofs.Packet.RoundTrip
@@ -114,6 +115,37 @@ theorem packetfifo_valid_complete (pd qd : Nat) (ins : List (In PBeat)) (i : In 
   obtain ⟨x, hx⟩ := List.exists_mem_of_length_pos this
   simp only [List.mem_filter] at hx
   exact ⟨x, hx.1, hx.2⟩
+
+/-- **packetfifo_atomic** for `buffered=True` (both queues are `SyncFIFOBuffered`: inner FIFO + output register).
+    Same statement; "stored" = output register followed by the inner FIFO; additionally the param register is
+    never valid without the payload register being valid (no `source.valid` on stale payload data). -/
+theorem packetfifo_buffered_atomic (pd qd : Nat) (ins : List (In PBeat)) :
+    let e := packetFifoBuffered pd qd
+    let s := e.runFrom e.init ins
+    e.delivered e.init ins <+: annT (e.accepted e.init ins) ∧
+    (e.accepted e.init ins).length = (e.delivered e.init ins).length + (storedPay s).length ∧
+    (storedPar s).length = ((storedPay s).filter (fun x => x.2)).length ∧
+    (s.parV = true → s.payV = true) ∧
+    s.payQ.length ≤ pd ∧ s.parQ.length ≤ qd := by
+  intro e s
+  have h := rel_run_init e (fun s a d => pfbRel s a d ∧ pfbBound pd qd s)
+    ⟨⟨[], by simp [e, packetFifoBuffered, storedPay], by simp [e, packetFifoBuffered, storedPar, paramsOf],
+        by simp [e, packetFifoBuffered], fun ext => by simp⟩,
+      by simp [pfbBound, e, packetFifoBuffered]⟩
+    (fun s a d i h => ⟨packetFifoBuffered_step pd qd s a d i h.1, packetFifoBuffered_bound_step pd qd s i h.2⟩)
+    ins
+  obtain ⟨⟨a2, hpay, hpar, hinv, hext⟩, hb1, hb2⟩ := h
+  have h0 := hext []
+  simp only [List.append_nil] at h0
+  refine ⟨⟨_, h0.symm⟩, ?_, ?_, hinv, hb1, hb2⟩
+  · have := congrArg List.length h0
+    simp only [List.length_append, annT_length] at this
+    show _ = _ + (storedPay s).length
+    rw [show storedPay s = a2.map payOf from hpay]
+    simpa using this
+  · show (storedPar s).length = ((storedPay s).filter _).length
+    rw [show storedPay s = a2.map payOf from hpay, show storedPar s = paramsOf a2 from hpar]
+    exact paramsOf_length a2
 
 /-- **packetfifo_capacity** (documented store-and-forward limit, not a violation): once the payload FIFO is
     full without holding a complete packet, nothing is accepted or delivered ever again, whatever the
